@@ -1,5 +1,409 @@
 import Driver.Proto
+import TonicModel.Model.Compression
+import TonicModel.Spec.Compression
+/-
+C05 driver: parses a case line and the implementation's observed tokens (see harness/src/c05.rs
+for the two formats), prints the model's observation in the same token form, and evaluates the
+Spec clauses on the *observed* record.
+-/
 namespace DriverC05
-/-- stub: property not yet claimed -/
-def handle (_case _obs : List String) : String × String := ("unclaimed", "fail:unclaimed")
+open Proto CompObs
+
+abbrev P (α : Type) := List String → Option (α × List String)
+
+def tok : P String
+  | [] => none
+  | t :: r => some (t, r)
+
+def lit (s : String) : P Unit
+  | t :: r => if t = s then some ((), r) else none
+  | [] => none
+
+def num : P Nat
+  | t :: r => (t.toNat?).map (·, r)
+  | [] => none
+
+def many {α} (p : P α) : Nat → P (List α)
+  | 0, ts => some ([], ts)
+  | n + 1, ts =>
+    match p ts with
+    | none => none
+    | some (a, r) =>
+      match many p n r with
+      | none => none
+      | some (as, r') => some (a :: as, r')
+
+def hexTok : P Bytes
+  | t :: r => (unhex t).map (·, r)
+  | [] => none
+
+/-- `<n> item*` -/
+def counted {α} (p : P α) : P (List α) := fun ts =>
+  match num ts with
+  | none => none
+  | some (n, r) => many p n r
+
+def hexList (marker : String) : P (List Bytes) := fun ts =>
+  match lit marker ts with
+  | none => none
+  | some (_, r) => counted hexTok r
+
+def encOfChar : Char → Option Enc
+  | 'g' => some .gzip
+  | 'd' => some .deflate
+  | 'z' => some .zstd
+  | _ => none
+
+def callsOf (s : String) : Option (List Call) :=
+  if s = "-" then some []
+  else s.toList.mapM (fun c => if c = 'p' then some Call.pop else (encOfChar c).map Call.en)
+
+def formOf (s : String) : Option Form :=
+  match s with
+  | "r" => some .raw
+  | "g" => some (.z .gzip)
+  | "d" => some (.z .deflate)
+  | "z" => some (.z .zstd)
+  | "x" => some .other
+  | _ => none
+
+def showForm : Form → String
+  | .raw => "r"
+  | .z .gzip => "g"
+  | .z .deflate => "d"
+  | .z .zstd => "z"
+  | .other => "x"
+
+/-- upper-case shape tokens mark a call made on a clone of the client: no effect in the model -/
+def shapeOf (s : String) : Option Shape :=
+  match s.toLower with
+  | "u" => some .unary
+  | "ss" => some .serverStreaming
+  | "cs" => some .clientStreaming
+  | "bi" => some .bidi
+  | _ => none
+
+def clsOf (s : String) : Option ErrCls :=
+  match s with
+  | "flag-no-enc" => some .flagNoEnc
+  | "bad-flag" => some .badFlag
+  | "missing" => some .missing
+  | "decompress" => some .decompress
+  | "unsupported" => some .unsupported
+  | "handler" => some .handler
+  | "peer" => some .peerStatus
+  | "-" => some .none
+  | "other" => some .other
+  | _ => none
+
+def showCls : ErrCls → String
+  | .flagNoEnc => "flag-no-enc"
+  | .badFlag => "bad-flag"
+  | .missing => "missing"
+  | .decompress => "decompress"
+  | .unsupported => "unsupported"
+  | .handler => "handler"
+  | .peerStatus => "peer"
+  | .none => "-"
+  | .other => "other"
+
+/-- case-side frame: `<flag> <pc> <msghex>` (the message bytes do not matter to the model) -/
+def caseFrame : P Frame := fun ts =>
+  match ts with
+  | f :: pc :: m :: r =>
+    match f.toNat?, formOf pc, unhex m with
+    | some n, some form, some _ => if n < 256 then some (⟨UInt8.ofNat n, form⟩, r) else none
+    | _, _, _ => none
+  | _ => none
+
+def caseFrames : P (List Frame) := fun ts =>
+  match lit "F" ts with
+  | none => none
+  | some (_, r) => counted caseFrame r
+
+/-- observed frame `<flag>:<form>` -/
+def obsFrame : P Frame := fun ts =>
+  match ts with
+  | t :: r =>
+    match t.splitOn ":" with
+    | [f, form] =>
+      match f.toNat?, formOf form with
+      | some n, some fm => if n < 256 then some (⟨UInt8.ofNat n, fm⟩, r) else none
+      | _, _ => none
+    | _ => none
+  | [] => none
+
+def showFrame (f : Frame) : String := toString f.flag.toNat ++ ":" ++ showForm f.form
+
+def obsItem : P Item := fun ts =>
+  match ts with
+  | t :: r =>
+    match t.splitOn ":" with
+    | [a, b] =>
+      if a = "ok" then (formOf b).map (fun f => (Item.ok f, r))
+      else
+        match (a.drop 1).toString.toNat?, clsOf b with
+        | some c, some k => if a.startsWith "e" then some (Item.err c k, r) else none
+        | _, _ => none
+    | _ => none
+  | [] => none
+
+def showItem : Item → String
+  | .ok f => "ok:" ++ showForm f
+  | .err c k => "e" ++ toString c ++ ":" ++ showCls k
+
+def showList {α} (f : α → String) (l : List α) : String :=
+  if l.isEmpty then "0" else toString l.length ++ " " ++ String.intercalate " " (l.map f)
+
+def optCode (marker : String) : P (Option Nat) := fun ts =>
+  match ts with
+  | m :: t :: r =>
+    if m ≠ marker then none
+    else if t = "none" then some (none, r) else (t.toNat?).map (fun n => (some n, r))
+  | _ => none
+
+def whereOf (s : String) : Option Where :=
+  match s with
+  | "hdr" => some .hdr
+  | "trl" => some .trl
+  | "absent" => some .absent
+  | _ => none
+
+def showWhere : Where → String
+  | .hdr => "hdr"
+  | .trl => "trl"
+  | .absent => "absent"
+
+/-! ### server -/
+
+structure SrvCase where
+  route : String
+  acc : List Call
+  snd : List Call
+  req : SrvReq
+  h : Handler
+
+def parseSrv (shape : String) (ts : List String) : Option SrvCase := do
+  let shape ← shapeOf shape
+  let (route, ts) ← tok ts
+  let (acc, ts) ← tok ts
+  let acc ← callsOf acc
+  let (snd, ts) ← tok ts
+  let snd ← callsOf snd
+  let (encVals, ts) ← hexList "E" ts
+  let (accVals, ts) ← hexList "A" ts
+  let (frames, ts) ← caseFrames ts
+  let (_, ts) ← lit "H" ts
+  let (kind, ts) ← tok ts
+  let (n, ts) ← num ts
+  let (dis, ts) ← num ts
+  let (md, ts) ← hexList "M" ts
+  let (_, ts) ← lit "R" ts
+  let (_, ts) ← hexTok ts
+  if ts ≠ [] then none
+  let h ← (if kind = "reply" then some (Handler.reply n (dis ≠ 0) md)
+           else if kind = "fail" then some (Handler.fail n) else none)
+  -- upper-case route tokens mark a `Grpc` value that has already served a call: no effect
+  let route := route.toLower
+  if route ≠ "d" ∧ route ≠ "c" then none
+  pure { route, acc, snd, req := { shape, encVals, accVals, frames }, h }
+
+def encLetters (vals : List Bytes) : String :=
+  if vals.isEmpty then "-"
+  else String.ofList (vals.map (fun v =>
+    if v = Compression.gzipName then 'g' else if v = Compression.deflateName then 'd'
+    else if v = Compression.zstdName then 'z' else '?'))
+
+/-- first token: a summary `s<code>.<class>.<announced encodings>` (feeds the evidence's
+distribution; redundant with the rest) -/
+def showSrv (o : SrvObs) : String :=
+  String.intercalate " "
+    ["s" ++ toString o.stCode ++ "." ++ showCls o.stCls ++ "." ++ encLetters o.enc, "called", if o.called then "1" else "0", "saw", showList showItem o.saw,
+     "enc", showList hex o.enc, "acc", showList hex o.acc,
+     "st", showWhere o.stWhere, toString o.stCode, showCls o.stCls,
+     "fr", showList showFrame o.frames]
+
+def parseSrvObs (ts : List String) : Option SrvObs := do
+  let (_, ts) ← tok ts
+  let (_, ts) ← lit "called" ts
+  let (c, ts) ← num ts
+  let (_, ts) ← lit "saw" ts
+  let (saw, ts) ← counted obsItem ts
+  let (enc, ts) ← hexList "enc" ts
+  let (acc, ts) ← hexList "acc" ts
+  let (_, ts) ← lit "st" ts
+  let (w, ts) ← tok ts
+  let w ← whereOf w
+  let (code, ts) ← num ts
+  let (cls, ts) ← tok ts
+  let cls ← clsOf cls
+  let (_, ts) ← lit "fr" ts
+  let (frames, ts) ← counted obsFrame ts
+  if ts ≠ [] then none
+  pure { called := c ≠ 0, saw, enc, acc, stWhere := w, stCode := code, stCls := cls, frames }
+
+def slotsOf (route : String) (cs : List Call) : Compression.Slots :=
+  Compression.configure (route = "d") cs
+
+def handleSrv (shape : String) (ts obs : List String) : String × String :=
+  match parseSrv shape ts with
+  | none => bad
+  | some c =>
+    let model := Compression.serve (slotsOf c.route c.acc) (slotsOf c.route c.snd) c.req c.h
+    let accept := Spec.Compression.enabledAfter c.acc
+    let send := Spec.Compression.enabledAfter c.snd
+    let v := match parseSrvObs obs with
+      | none => if obs = ["not-a-header-value"] then "ok" else "fail:unparsable-observation"
+      | some o =>
+        verdict [("server-choice-enabled-and-offered", Spec.Compression.srvChoice send c.req o),
+                 ("compressed-only-as-announced", Spec.Compression.srvAnnounce o),
+                 ("unsupported-request-encoding-refused", Spec.Compression.srvReject accept c.req o),
+                 ("flag-without-encoding-internal", Spec.Compression.srvFlag accept c.req o),
+                 ("acceptable-request-delivered", Spec.Compression.srvDeliver accept c.req o)]
+    (showSrv model, v)
+
+/-! ### client -/
+
+structure CliCase where
+  shape : Shape
+  snd : List Call
+  acc : List Call
+  umdEnc : List Bytes
+  umdAcc : List Bytes
+  k : Nat
+  resp : CliResp
+
+def parseCli (shape : String) (ts : List String) : Option CliCase := do
+  let shape ← shapeOf shape
+  let (snd, ts) ← tok ts
+  let snd ← callsOf snd
+  let (acc, ts) ← tok ts
+  let acc ← callsOf acc
+  let (umdEnc, ts) ← hexList "UE" ts
+  let (umdAcc, ts) ← hexList "UA" ts
+  let (_, ts) ← lit "Q" ts
+  let (k, ts) ← num ts
+  let (_, ts) ← hexTok ts
+  let (encVals, ts) ← hexList "E" ts
+  let (hs, ts) ← optCode "HS" ts
+  let (frames, ts) ← caseFrames ts
+  let (tst, ts) ← optCode "TS" ts
+  if ts ≠ [] then none
+  if snd.any (· == Call.pop) || acc.any (· == Call.pop) then none
+  pure { shape, snd, acc, umdEnc, umdAcc, k, resp := { encVals, hdrStatus := hs, frames, trlStatus := tst, accVals := [], peerCls := .peerStatus } }
+
+/-- `send_compressed` calls: the last one wins -/
+def sendOf (cs : List Call) : Option Enc :=
+  cs.foldl (fun cur c => match c with | .en e => some e | .pop => cur) none
+
+def showCli (o : CliObs) : String :=
+  let outcome := match o.result.getLast? with
+    | none => "none"
+    | some (.ok _) => "ok"
+    | some it => showItem it
+  String.intercalate " "
+    ["c" ++ outcome ++ "." ++ encLetters o.enc, "enc", showList hex o.enc, "acc", showList hex o.acc, "fr", showList showFrame o.frames,
+     "res", showList showItem o.result, "eacc", showList hex o.errAcc]
+
+def parseCliObs (ts : List String) : Option CliObs := do
+  let (_, ts) ← tok ts
+  let (enc, ts) ← hexList "enc" ts
+  let (acc, ts) ← hexList "acc" ts
+  let (_, ts) ← lit "fr" ts
+  let (frames, ts) ← counted obsFrame ts
+  let (_, ts) ← lit "res" ts
+  let (result, ts) ← counted obsItem ts
+  let (errAcc, ts) ← hexList "eacc" ts
+  if ts ≠ [] then none
+  pure { enc, acc, frames, result, errAcc }
+
+def handleCli (shape : String) (ts obs : List String) : String × String :=
+  match parseCli shape ts with
+  | none => bad
+  | some c =>
+    let cfg : Compression.CliCfg := { send := sendOf c.snd, accept := Compression.runCalls c.acc }
+    let model := Compression.call cfg c.shape c.umdEnc c.umdAcc c.k c.resp
+    let accept := Spec.Compression.enabledAfter c.acc
+    let v := match parseCliObs obs with
+      | none => if obs = ["not-a-header-value"] ∨ obs = ["bad-md"] then "ok" else "fail:unparsable-observation"
+      | some o =>
+        verdict [("client-sends-exactly-configured-encoding", Spec.Compression.cliSend (sendOf c.snd) o),
+                 ("client-advertises-exactly-accepted", Spec.Compression.cliAdvertise accept o),
+                 ("unsupported-response-encoding-refused", Spec.Compression.cliRefuse accept c.resp o),
+                 ("flag-without-encoding-internal", Spec.Compression.cliFlag accept c.resp o),
+                 ("acceptable-response-delivered", Spec.Compression.cliDeliver accept c.shape c.resp o)]
+    (showCli model, v)
+
+/-! ### pair: a real client against a real server -/
+
+structure PairCase where
+  shape : Shape
+  route : String
+  csnd : List Call
+  cacc : List Call
+  sacc : List Call
+  ssnd : List Call
+  k : Nat
+  h : Handler
+
+def parsePair (shape : String) (ts : List String) : Option PairCase := do
+  let shape ← shapeOf shape
+  let (route, ts) ← tok ts
+  let route := route.toLower
+  let (csnd, ts) ← tok ts
+  let csnd ← callsOf csnd
+  let (cacc, ts) ← tok ts
+  let cacc ← callsOf cacc
+  let (sacc, ts) ← tok ts
+  let sacc ← callsOf sacc
+  let (ssnd, ts) ← tok ts
+  let ssnd ← callsOf ssnd
+  let (_, ts) ← lit "K" ts
+  let (k, ts) ← num ts
+  let (_, ts) ← lit "H" ts
+  let (kind, ts) ← tok ts
+  let (n, ts) ← num ts
+  let (dis, ts) ← num ts
+  let (_, ts) ← lit "Q" ts
+  let (_, ts) ← hexTok ts
+  let (_, ts) ← lit "R" ts
+  let (_, ts) ← hexTok ts
+  if ts ≠ [] then none
+  let h ← (if kind = "reply" then some (Handler.reply n (dis ≠ 0) [])
+           else if kind = "fail" then some (Handler.fail n) else none)
+  if route ≠ "d" ∧ route ≠ "c" then none
+  if csnd.any (· == Call.pop) || cacc.any (· == Call.pop) then none
+  pure { shape, route, csnd, cacc, sacc, ssnd, k, h }
+
+def splitAt (marker : String) (ts : List String) : List String × List String :=
+  (ts.takeWhile (· ≠ marker), (ts.dropWhile (· ≠ marker)).drop 1)
+
+def handlePair (shape : String) (ts obs : List String) : String × String :=
+  match parsePair shape ts with
+  | none => bad
+  | some c =>
+    let ccfg : Compression.CliCfg := { send := sendOf c.csnd, accept := Compression.runCalls c.cacc }
+    let (so, co) := Compression.pair ccfg (slotsOf c.route c.sacc) (slotsOf c.route c.ssnd) c.shape c.k c.h
+    let srvT := showSrv so
+    let model := "p" ++ (srvT.splitOn " ").headD "" ++ " S " ++ srvT ++ " C " ++ showCli co
+    let (_, rest) := splitAt "S" obs
+    let (sToks, cToks) := splitAt "C" rest
+    let v := match parseSrvObs sToks, parseCliObs cToks with
+      | some os, some oc =>
+        verdict [("tonic-pair-negotiates-and-delivers",
+          Spec.Compression.pairOk (sendOf c.csnd) (Spec.Compression.enabledAfter c.cacc)
+            (Spec.Compression.enabledAfter c.sacc) (Spec.Compression.enabledAfter c.ssnd)
+            c.shape c.k c.h os oc)]
+      | _, _ => "fail:unparsable-observation"
+    (model, v)
+
+def handle (case obs : List String) : String × String :=
+  match case with
+  | k :: ts =>
+    if k.startsWith "srv." then handleSrv (k.drop 4).toString ts obs
+    else if k.startsWith "cli." then handleCli (k.drop 4).toString ts obs
+    else if k.startsWith "pair." then handlePair (k.drop 5).toString ts obs
+    else bad
+  | _ => bad
+
 end DriverC05
